@@ -356,6 +356,7 @@ class Parser:
     def __init__(self, src, lang, julia_strict_space=True):
         self.lang = lang
         self.toks, self.comments = tokenize(src, lang)
+        self.toks += [self.toks[-1]] * 3          # look-ahead never runs off the end
         self.i = 0
         self.skipnl = [False]
         self.in_matrix = 0
@@ -600,15 +601,10 @@ class Parser:
         self.bad('stray_token_after_comment' if t.after_comment else 'unexpected_token', t)
 
     def param(self, node):
-        if node[0] == 'id':
-            return (node[1], None)
-        if node[0] == 'bin' and node[1] == '::' and node[2][0] == 'id':
-            return (node[2][1], node[3])
-        if node[0] == 'pattern':
-            return (node[1], node)
-        if node[0] == 'bin' and node[1] == '?' and node[2][0] == 'pattern':
-            return (node[2][1], node)
-        self.bad('bad_parameter')
+        p = param_of(node)
+        if p is None:
+            self.bad('bad_parameter')
+        return p
 
     def prefix_id(self, t):
         lang, name = self.lang, t.text
@@ -762,6 +758,11 @@ class Parser:
         if t.text == '.' and lang in ('matlab', 'julia') and self.toks[self.i + 1].kind == 'id':
             self.next()
             return ('field', left, self.next().text)
+        if t.text == '.' and lang == 'julia' and self.toks[self.i + 1].text in ('(', '['):
+            self.lim('broadcast_syntax', t)
+        if t.text == ':-' and lang == 'maple' and self.toks[self.i + 1].kind == 'id':
+            self.next()                      # A:-B is the module-member form of A[B]
+            return ('app', left, [(None, ('id', self.next().text))], '[')
         if t.text == '...' and lang == 'julia':
             self.next()
             return ('splat', left)
@@ -825,6 +826,19 @@ class Parser:
             if self.at(':'):
                 self.lim('strided_subscript')
         return (None, node)
+
+
+def param_of(node):
+    """(name, annotation) of a formal parameter node, or None."""
+    if node[0] == 'id':
+        return (node[1], None)
+    if node[0] == 'bin' and node[1] == '::' and node[2][0] == 'id':
+        return (node[2][1], node[3])
+    if node[0] == 'pattern':
+        return (node[1], node)
+    if node[0] == 'bin' and node[1] == '?' and node[2][0] == 'pattern':
+        return (node[2][1], node)
+    return None
 
 
 def find_nodes(node, pred, out=None):
@@ -929,6 +943,8 @@ class Interp:
 
     def read(self, fh, code, count, order, skip=0):
         """Read up to `count` elements (None = all) of numpy type `code`."""
+        if count is not None and count < 0:
+            self.bad('negative_element_count', str(count))
         dt = np.dtype(code).newbyteorder(order)
         stride = dt.itemsize + skip
         avail = max(0, (len(fh.data) - fh.pos + skip) // stride)
@@ -981,7 +997,8 @@ class Interp:
         if node[1] == '+':
             return self.number(v)
         if node[1] == '-':
-            return -self.number(v)
+            v = self.number(v)
+            return self.arith('-', v.dtype.type(0), v) if isinstance(v, np.integer) else -v
         self.lim('unary_operator', node[1])
 
     # -- values ---------------------------------------------------------------
@@ -1004,6 +1021,16 @@ class Interp:
         return v
 
     def arith(self, op, a, b):
+        try:
+            return self._arith(op, a, b)
+        except ValueError as e:
+            if self.family == 'R':
+                self.lim('vector_recycling', str(e))
+            self.rt('nonconformant_operands', str(e))
+        except (ZeroDivisionError, OverflowError) as e:
+            self.lim('non_finite_arithmetic', str(e))
+
+    def _arith(self, op, a, b):
         a, b = self.number(a), self.number(b)
         if op in ('+', '.+'):
             return a + b
@@ -2095,8 +2122,8 @@ class JuliaInterp(Interp):
     def ev_assign(self, node, env):
         _, lhs, rhs, op = node
         if lhs[0] == 'app' and lhs[3] == '(' and lhs[1][0] == 'id':      # f(k) = expr
-            params = [Parser.param(None, n) if n[0] == 'id' else (None, None) for _, n in lhs[2]]
-            if any(p[0] is None for p in params):
+            params = [param_of(n) for _, n in lhs[2]]
+            if any(p is None or p[1] is not None and p[1][0] in ('pattern', 'bin') for p in params):
                 self.lim('short_function_definition')
             env[lhs[1][1]] = Func(params, [Stmt(rhs, 0, '')], self.env, 'julia', lhs[1][1])
             return env[lhs[1][1]]
@@ -2261,7 +2288,8 @@ class JuliaInterp(Interp):
         data = self.read(fh, A.dtype.str[1:], A.size, '=')
         if data.size < A.size:
             self.rt('eof_error', f'read! needs {A.size} elements, file has {data.size}')
-        return data.reshape(A.shape, order='F')
+        A[...] = data.reshape(A.shape, order='F')      # read! fills its argument in place
+        return A
 
     def b_read(self, a):
         if not a:
@@ -2588,8 +2616,8 @@ class MathematicaInterp(Interp):
     def ev_assign(self, node, env):
         _, lhs, rhs, op = node
         if lhs[0] == 'app' and lhs[3] == '[' and lhs[1][0] == 'id':
-            params = [Parser.param(None, n) if n[0] in ('pattern', 'bin') else None for _, n in lhs[2]]
-            if any(p is None for p in params):
+            params = [param_of(n) if n[0] in ('pattern', 'bin') else None for _, n in lhs[2]]
+            if any(p is None or p[1][0] not in ('pattern', 'bin') or p[1][1] == '::' for p in params):
                 self.lim('definition_with_literal_arguments')
             fn = Func(params, [Stmt(rhs, 0, '')], self.env, 'mma', lhs[1][1])
             self.assign_name(env, lhs[1][1], fn)
@@ -2962,6 +2990,20 @@ _EXAMPLE_RE = re.compile(r'example\s+to\s+(?:read|get)\s+(?:the\s+)?(first|secon
                          r'\(\s*k\s*=\s*(-?\d+)\s*\)\s+subarray')
 
 
+_INTERNAL = (ValueError, TypeError, IndexError, KeyError, AttributeError, OverflowError,
+             ZeroDivisionError, RecursionError, NotImplementedError, MemoryError)
+
+
+def _guarded(fn):
+    def wrapper(*args, **kwargs):
+        try:
+            return fn(*args, **kwargs)
+        except _INTERNAL as e:
+            raise StubLimitation(f'internal:{type(e).__name__}: {e}') from e
+    wrapper.__name__, wrapper.__doc__ = fn.__name__, fn.__doc__
+    return wrapper
+
+
 def _make(language, cwd):
     if language not in _INTERPS:
         raise StubLimitation(f'{language}:no_stub_for_language')
@@ -2999,6 +3041,7 @@ def _lookup(it, name):
     return False, None
 
 
+@_guarded
 def run_array_snippet(language, code, cwd, varname='a'):
     """Interpret the snippet of ``Array.readcode(language)``; see module docstring."""
     it = _make(language, cwd)
@@ -3037,6 +3080,7 @@ def _call_accessor(it, name, k):
     return it.call(fn, [_native_k(it, k)])
 
 
+@_guarded
 def run_ragged_snippet(language, code, cwd, example_var='sa'):
     """Interpret the snippet of ``RaggedArray.readcode(language)``; see module docstring."""
     it = _make(language, cwd)
@@ -3065,11 +3109,11 @@ def run_ragged_snippet(language, code, cwd, example_var='sa'):
                 res.example_call_k = s.node[2][1]
     try:
         for s in example:
-            it.exec(s, it.env)
             if it.family != 'idl' and res.example_call_k is None:
                 name, k = _accessor_call(it, s.node)
                 if name:
                     accessor, res.example_call_k = name, k
+            it.exec(s, it.env)
     except LangRuntimeError as e:
         res.example_error = str(e)
     bound, v = _lookup(it, var)
@@ -3080,6 +3124,7 @@ def run_ragged_snippet(language, code, cwd, example_var='sa'):
     res.paths = list(it.paths)
     res.accessor = accessor if it.family != 'idl' else None
 
+    @_guarded
     def get(k):
         if it.family == 'idl':
             if idl_if is None:
